@@ -363,6 +363,19 @@ def run_setup(rep, st, col, tier):
         rep.nontrivial((st.name, label, json.dumps(sorted((k, str(v)) for k, v in plan.items()))))
         return judge(rep, st, col, clean, o1, label, {str(k): v for k, v in plan.items()})
 
+    # ---- always-run corpus: the recorded double fault that defeats rm_retry (C19_lie_pair_refuted,
+    #      known finding fnf-rm+lying-exists): rm of an external temp directory raises
+    #      FileNotFoundError and the existence re-check lies
+    if st.mode != 'inside':
+        for j, t in enumerate(o.trace[:-1]):
+            nxt = o.trace[j + 1]
+            if t[0] == 'rm' and re.match(r'^(.*/)?t\d+$', t[1]) and nxt[:2] == ('exists', t[1]):
+                rep.count('corpus:fnf-rm+lying-exists')
+                go({j + 1: 'fnf', j + 2: 'lie'}, 'corpus')
+                break
+    # the three single lying-exists schedules that broke the code before commit 89cec74 (at the
+    # existence checks of rm_retry(tmp), rm_retry(placeholder), move_retry) are part of the
+    # enumeration below: every position x 'lie'
     # ---- every single position, every kind that applies to the call at that position
     for pos in range(1, L + 1):
         op = o.trace[pos - 1][0]
